@@ -79,7 +79,9 @@ def rule_only_input_error(ck, fi=None, depth=0):
         for _try, handlers in q.enclosing_try_handlers(pm, node):
             for h in handlers:
                 if q.exc_is_caught("Exception", q.handler_names(h)):
-                    return h
+                    # earlier, narrower handlers of the same try must convert (or pass an HTTPInputError on) as well
+                    others_ok = all(_converting(h2) or (all(nm.split(".")[-1] == "HTTPInputError" for nm in q.handler_names(h2)) and len(h2.body) == 1 and isinstance(h2.body[0], ast.Raise) and h2.body[0].exc is None) for h2 in handlers)
+                    return h if others_ok else None
             # a narrower handler does not protect; keep looking outward
         return None
 
@@ -96,11 +98,14 @@ def rule_only_input_error(ck, fi=None, depth=0):
     if top:
         ck.floor("C30.only-input-error", len(tries), 1, "try statements in parse_body_arguments")
     for t in tries:
+        n += 1
+        covered = any(q.exc_is_caught("Exception", q.handler_names(h)) for h in t.handlers)
+        ck.ob("C30.only-input-error", fi, t.handlers[0] if t.handlers else t, covered, "the handlers around the body parser together catch Exception (everything a hostile body can provoke), not only narrower classes", construct="except %s" % " | ".join(",".join(q.handler_names(h)) for h in t.handlers))
         for h in t.handlers:
             n += 1
-            broad = q.exc_is_caught("Exception", q.handler_names(h))
-            ck.ob("C30.only-input-error", fi, h, broad, "the handler around the body parser catches Exception (everything a hostile body can provoke), not a narrower class", construct="except %s" % ",".join(q.handler_names(h)))
-            ck.ob("C30.only-input-error", fi, h, _converting(h), "the handler converts to HTTPInputError (its last statement raises HTTPInputError, no early exit)", construct="handler body of except %s" % ",".join(q.handler_names(h)))
+            only_input = all(nm.split(".")[-1] == "HTTPInputError" for nm in q.handler_names(h))
+            passes_on = only_input and len(h.body) == 1 and isinstance(h.body[0], ast.Raise) and h.body[0].exc is None
+            ck.ob("C30.only-input-error", fi, h, _converting(h) or passes_on, "the handler converts to HTTPInputError (its last statement raises HTTPInputError, no early exit) or passes an HTTPInputError on unchanged", construct="handler body of except %s" % ",".join(q.handler_names(h)))
         if t.finalbody:
             raise AnalysisError("C30: try/finally in %s (unknown idiom)" % fi.qualname)
         # try/else: the else block is not covered by the handlers; its statements are linted as unprotected code below
@@ -110,7 +115,8 @@ def rule_only_input_error(ck, fi=None, depth=0):
         n += 1
         hb = in_handler_body(r)
         if r.exc is None:
-            ck.ob("C30.only-input-error", fi, r, False, "bare re-raise lets the original exception escape")
+            only_input = hb is not None and all(nm.split(".")[-1] == "HTTPInputError" for nm in q.handler_names(hb))
+            ck.ob("C30.only-input-error", fi, r, only_input, "a bare re-raise lets the original exception escape (fine only inside 'except HTTPInputError')")
             continue
         prot = handler_for(r) if hb is None else None
         if prot is not None and _converting(prot):
@@ -394,7 +400,8 @@ def rule_byte_exact(ck):
         if root == argsp:
             sinks.append((nd, c, c.args[-1], "field value stored in %s" % argsp))
         elif root == filesp:
-            a = c.args[-1]
+            from ..x_resolve import resolve as _res
+            a = _res(fi, c.args[-1])
             if isinstance(a, ast.Call) and q.call_attr(a) == "HTTPFile":
                 b = q.kwarg(a, "body")
                 if b is None:
